@@ -135,9 +135,10 @@ class SRTWriter(BaseWriter):
 
             # Eliminate excessive line breaks
             new_content = new_content.strip()
-            # A blank line would end the cue: never leave one inside the text
-            while '\n\n' in new_content:
-                new_content = new_content.replace('\n\n', '\n')
+            # A blank line would end the cue: never leave one inside the
+            # text, not even one that holds nothing but white space
+            new_content = '\n'.join(
+                line for line in new_content.split('\n') if line.strip())
 
             srt += f"{new_content}\n\n"
             count += 1
